@@ -283,9 +283,47 @@ def chan1():
     ]
 
 
+def laws1():
+    """pairs of commands that a law of C04 declares equal"""
+    n = N()
+    ls = leaves(n)
+
+    def fresh(mk):
+        n.i = n.t = 0
+        return mk()
+
+    def pairfresh(a, b):
+        n.i = n.t = 0
+        return a(), b()
+    base = [fresh(l) for l in ls]
+    for a, b in itertools.product(ls[1:], ls[3:]):
+        x, y = pairfresh(a, b)
+        base.append({"k": "then", "id": 801, "tid": 802, "a": x, "b": y})
+    base += scripts()[:6] + flat1()[:3]
+    D = lambda i: {"k": "done", "id": i, "tid": i + 1}
+    out = []
+    for p in base:
+        out.append({"law": "then(done, p) = p", "a": {"k": "then", "id": 901, "tid": 902, "a": D(903), "b": p}, "b": p})
+        out.append({"law": "then(p, done) = p", "a": {"k": "then", "id": 901, "tid": 902, "a": p, "b": D(903)}, "b": p})
+        out.append({"law": "and(done, p) = p", "a": {"k": "and", "id": 901, "tid": 902, "a": D(903), "b": p}, "b": p})
+        out.append({"law": "and(p, done) = p", "a": {"k": "and", "id": 901, "tid": 902, "a": p, "b": D(903)}, "b": p})
+        out.append({"law": "all([p]) = p", "a": {"k": "all", "id": 901, "tid": 902, "cs": [{"tid": 903, "c": p}]}, "b": p})
+        out.append({"law": "map_event(id, p) = p", "a": {"k": "map_event", "id": 901, "tid": 902, "f": "id", "c": p}, "b": p})
+        out.append({"law": "map_effect(id, p) = p", "a": {"k": "map_effect", "id": 901, "tid": 902, "f": "id", "c": p}, "b": p})
+    for a, b in itertools.combinations(ls[1:], 2):
+        x, y = pairfresh(a, b)
+        out.append({"law": "and(p, q) = and(q, p)",
+                    "a": {"k": "and", "id": 901, "tid": 902, "a": x, "b": y},
+                    "b": {"k": "and", "id": 901, "tid": 902, "a": y, "b": x}})
+        out.append({"law": "all([p, q]) = all([q, p])",
+                    "a": {"k": "all", "id": 901, "tid": 902, "cs": [{"tid": 903, "c": x}, {"tid": 904, "c": y}]},
+                    "b": {"k": "all", "id": 901, "tid": 902, "cs": [{"tid": 903, "c": y}, {"tid": 904, "c": x}]}})
+    return out
+
+
 if __name__ == "__main__":
     fam = sys.argv[1]
-    progs = {"cmd1": cmd1, "scripts": scripts, "scripts2": lambda: scripts2(2), "scripts3": lambda: scripts2(3), "apps1": apps1, "flat1": flat1, "chan1": chan1}[fam]()
+    progs = {"cmd1": cmd1, "scripts": scripts, "scripts2": lambda: scripts2(2), "scripts3": lambda: scripts2(3), "apps1": apps1, "flat1": flat1, "chan1": chan1, "laws1": laws1}[fam]()
     if len(sys.argv) > 2:
         lo, hi = map(int, sys.argv[2].split(":"))
         progs = progs[lo:hi]
